@@ -37,7 +37,7 @@ Proof.
     pose proof (blen_nonneg r1). pose proof (blen_nonneg r2).
     pose proof (blen_nonneg (s_data s1)). pose proof (blen_nonneg (s_data s2)).
     unfold c_IKCP_OVERHEAD in *. lia. }
-  pose proof (f_equal rd32 E) as E0. rewrite !lv_skip0, !pg_rd32_le32 in E0.
+  pose proof (f_equal rd32 E) as E0. rewrite (lv_skip0 s1 r1), (lv_skip0 s2 r2), !pg_rd32_le32 in E0.
   pose proof (f_equal (fun l => nth 4 l 0) E) as E4. cbv beta in E4.
   change (nth 4 (encode_seg s1 ++ r1) 0) with (s_cmd s1) in E4.
   change (nth 4 (encode_seg s2 ++ r2) 0) with (s_cmd s2) in E4.
